@@ -459,7 +459,9 @@ func init() {
 				// ReverseOps is appended with opResult.Reverse
 				ok := false
 				for _, st := range storesTo(fn, revF) {
-					if sliceContains(st.Val, func(v ssa.Value) bool { return prog.LoadedField(v) == revOne || (func() bool { f, _ := v.(*ssa.Field); return f != nil && prog.FieldVar(f) == revOne })() }) {
+					if sliceContains(st.Val, func(v ssa.Value) bool {
+						return prog.LoadedField(v) == revOne || (func() bool { f, _ := v.(*ssa.Field); return f != nil && prog.FieldVar(f) == revOne })()
+					}) {
 						ok = true
 					}
 				}
